@@ -104,3 +104,89 @@ func GovcC06JacobianHessian() {
   govcCheckEq("x-unchanged[0]", x.ConstAt(0).GetFloat64(), x0)
   govcCheckEq("x-unchanged[1]", x.ConstAt(1).GetFloat64(), x1)
 }
+
+// C12 (bounded): Clone / CloneMatrix / CloneVector of containers, including views, share no storage with
+// their source: a write to the clone is invisible in the source and vice versa
+func GovcC12CloneIndependence() {
+  x, y := govcSym("x"), govcSym("y")
+  mk := func(kind int) Matrix {
+    var m Matrix
+    switch kind {
+    case 0:
+      m = NullDenseFloat64Matrix(3, 3)
+    case 1:
+      m = NullDenseReal64Matrix(3, 3)
+    default:
+      m = NullSparseFloat64Matrix(3, 3)
+    }
+    for i := 0; i < 3; i++ {
+      for j := 0; j < 3; j++ {
+        m.At(i, j).SetFloat64(float64(10*i+j+1))
+      }
+    }
+    return m
+  }
+  for kind := 0; kind < 3; kind++ {
+    for view := 0; view < 3; view++ {
+      if kind == 2 && view == 2 {
+        continue // T() of a sparse matrix is no reference view (known finding C10)
+      }
+      root := mk(kind)
+      var src Matrix
+      switch view {
+      case 0:
+        src = root
+      case 1:
+        src = root.Slice(1, 3, 0, 2)
+      default:
+        src = root.Slice(0, 2, 1, 3).T()
+      }
+      c := src.CloneMatrix()
+      n, m := src.Dims()
+      // write to the clone: source unchanged
+      c.At(0, 1).SetFloat64(x)
+      // write to the source: clone unchanged (except the cell written above)
+      src.At(1, 0).SetFloat64(y)
+      tag := fmt.Sprintf("clone[kind%d,view%d]", kind, view)
+      govcCheckEq(tag+":src[0,1]", src.ConstAt(0, 1).GetFloat64(), rootValue(kind, view, 0, 1))
+      govcCheckEq(tag+":clone[1,0]", c.ConstAt(1, 0).GetFloat64(), rootValue(kind, view, 1, 0))
+      govcCheckEq(tag+":clone[0,1]", c.ConstAt(0, 1).GetFloat64(), x)
+      govcCheckEq(tag+":src[1,0]", src.ConstAt(1, 0).GetFloat64(), y)
+      for i := 0; i < n; i++ {
+        for j := 0; j < m; j++ {
+          if (i == 0 && j == 1) || (i == 1 && j == 0) {
+            continue
+          }
+          govcCheckEq(fmt.Sprintf("%s:clone[%d,%d]", tag, i, j), c.ConstAt(i, j).GetFloat64(), rootValue(kind, view, i, j))
+        }
+      }
+    }
+  }
+  // vectors
+  dv := NewDenseReal64Vector([]float64{1, 2, 3})
+  cv := dv.CloneVector()
+  cv.At(0).SetFloat64(x)
+  dv.At(1).SetFloat64(y)
+  govcCheckEq("real-vector:src[0]", dv.ConstAt(0).GetFloat64(), 1.0)
+  govcCheckEq("real-vector:clone[1]", cv.ConstAt(1).GetFloat64(), 2.0)
+  sv := NewSparseFloat64Vector([]int{0, 2}, []float64{1, 3}, 3)
+  cs := sv.CloneVector()
+  cs.At(0).SetFloat64(x)
+  cs.At(1).SetFloat64(x)
+  sv.At(2).SetFloat64(y)
+  govcCheckEq("sparse-vector:src[0]", sv.ConstAt(0).GetFloat64(), 1.0)
+  govcCheckEq("sparse-vector:src[1]", sv.ConstAt(1).GetFloat64(), 0.0)
+  govcCheckEq("sparse-vector:clone[2]", cs.ConstAt(2).GetFloat64(), 3.0)
+}
+
+// element (i,j) of the view `view` of the 3x3 matrix with entries 10 r + c + 1
+func rootValue(kind, view, i, j int) float64 {
+  switch view {
+  case 0:
+    return float64(10*i + j + 1)
+  case 1:
+    return float64(10*(i+1) + j + 1)
+  default:
+    return float64(10*j + (i + 1) + 1)
+  }
+}
